@@ -316,8 +316,12 @@ def push_pop(ctx: Ctx, rule: str) -> None:
         ct = [s for s in ast.walk(loop) if isinstance(s, ast.Assign) and ast.unparse(s.targets[0]) == "composite_types"]
         ok = ok and len(ct) == 1 and ast.unparse(ct[0].value) == "params_obj_type.split('/')"
         pin = [l for l in ast.walk(loop) if isinstance(l, ast.For) and l is not loop and "zip(composite_types, composite_names)" in ast.unparse(l.iter)]
-        ok = ok and len(pin) == 1 and any(isinstance(s, ast.Assign) and ast.unparse(s.targets[0]) == f"{sp}[composite_type]"
-                                         and ast.unparse(s.value) == "composite_name" for s in pin[0].body)
+        # the pinning loop: for <t>, <n> in zip(types, names): <params>[<t>] = <n>   (whatever the two loop variables are called)
+        if len(pin) == 1 and isinstance(pin[0].target, ast.Tuple) and len(pin[0].target.elts) == 2 and all(isinstance(e, ast.Name) for e in pin[0].target.elts):
+            tk, nv = (e.id for e in pin[0].target.elts)
+            ok = ok and any(isinstance(s, ast.Assign) and ast.unparse(s.targets[0]) == f"{sp}[{tk}]" and ast.unparse(s.value) == nv for s in pin[0].body)
+        else:
+            ok = False
         dels = [c for c in calls_in(loop) if call_name(c) in ("set_states", "get_states", "unset_states")]
         ok = ok and all([ast.unparse(a) for a in c.args] == [sp, "env"] for c in dels)
         ctx.record(rule + op[1] + "p", "PROV", fref,
